@@ -12,6 +12,12 @@ ENGINES = [
      'kind_free_text': 'preemption-bounded controlled scheduler over compiler-inserted load/store hooks with conflict (race) monitor'},
 ]
 TEXT = {
+    'C17': {
+        'level': 'Stateless model checking of the real renderer under a hand-written controlled scheduler: 2 and 3 renders run as coroutines; clang trace-loads/trace-stores instrumentation makes every load and store of the code under test a hook; every access to memory that is not the coroutine\'s own stack or its own allocation is a scheduling point and is entered into per-granule reader/writer sets. ALL schedules with <=1 (quick) / <=2 (thorough, 2 threads) preemptions are executed for 48 configurations (16 templates covering every tag kind incl. sort/group x shared value / different values). After each schedule: every output equals a fresh single render, the canonical dump of the tag cache and the values are unchanged, stream prefixes intact, and no shared granule was written by one render and touched by another. Zero conflicts on the serial schedule means every interleaving is equivalent to the serial one (no happens-before edges exist in the code), which makes the bounded result complete for the configuration. Plus all histories of <=3/4 sequential steps (cached renders into fresh/pre-filled streams, cache copy, cache move) per template, and a free-running ThreadSanitizer pass of the same bodies on 4 OS threads.',
+        'design_ref': 'DESIGN.md §2 E4, §5 C17',
+        'note': 'Sequential consistency; allocator internals and libc outside the monitor; schedules replay deterministically (a divergence while replaying a prefix is a harness error).',
+        'technique': 'preemption-bounded exhaustive schedule exploration (CHESS-style) of the implementation with a data-race/conflict monitor',
+    },
     'C03': {
         'level': 'Bounded-exhaustive: every string of <=5 (quick) / <=6 (thorough, 34 M) units over {& < > \" \' ; a m p l t g q u o s x NUL} through StringUtils::EscapeHTMLSpecialChars from exact-size buffers in three widths; every proper prefix and one-unit corruption of the five entities x tails x prefixes (entity look-alikes at every distance from the end); every string of <=3/4 units and all entity products through 8 printing positions of the renderer ({var:}, {raw:}, loop key, super-variable phrase, svar sub-tags, inline-if true/false sub-tags, echoed source of an unresolved tag). Oracle: no raw < > \" \', & only as the start of one of the five entities, decode(out)==decode(in), escaping is idempotent, {raw:} verbatim, stream prefix intact; a second build with QENTEM_AUTO_ESCAPE_HTML=0 requires {var:} == {raw:}.',
         'design_ref': 'DESIGN.md §5 C03',
